@@ -55,7 +55,7 @@ func NewCandidateServerReflexive(config *CandidateServerReflexiveConfig) (*Candi
 			priorityOverride:   config.Priority,
 			relatedAddress: &CandidateRelatedAddress{
 				Address: config.RelAddr,
-				Port:    config.RelPort,
+				Port:    relatedPort(config.RelAddr, config.RelPort),
 			},
 		},
 	}
